@@ -84,7 +84,7 @@ pub fn run(seed: u64, thorough: bool, out_dir: &std::path::Path) -> Out {
         .collect();
     let mut descs: Vec<BTreeMap<String, Vec<Value>>> = (0..shards).map(|_| BTreeMap::new()).collect();
 
-    let n_trees = if thorough { 400 } else { 36 };
+    let n_trees = hx_common::shard_share(if thorough { 400 } else { 36 });
     let scheds_per_tree = if thorough { 6 } else { 3 };
     let mut case_no = 0usize;
     for ti in 0..n_trees {
